@@ -25,8 +25,13 @@ RULE = (
     "given or None, ModEv over the 8 method names and the aliases EXA/EXP/TRN, ModSV None/exponentiated/expanded, "
     "backward_inversion in the operator card (where ekomark and the repository's benchmarks put it) / in the theory card "
     "/ absent, PTO_matching, n3lo_ad_variation and use_fhmruvv present or absent, targets as mugrid / Q2grid / mu2grid "
-    "(1-4 points, never within 1e-6 of a matching scale), grids and interpolation flags, integer ev_op_max_order -> "
-    "Legacy(theory, operator).new_theory / new_operator. (archive) a current archive built through the public API "
+    "(1-4 points), Q0 and the targets either clearly off every matching scale or bitwise on one (m*k as the code forms "
+    "it; ~1/4 each), matching ratios optionally infinite for the last 1-2 quarks (FFNS spelling), the grid given as "
+    "list / tuple / float64 array / integer list / integer array, grids and interpolation flags, integer "
+    "ev_op_max_order -> Legacy(theory, operator).new_theory / new_operator on the caller's own objects; the same raw "
+    "operator card is upgraded 1-4 times, paired with theories differing in PTO/QED/ModEv/ModSV/XIF/Q0/nf0: every "
+    "upgrade must satisfy the oracle, agree with upgrading a private deep copy of the request, and leave both raw "
+    "cards unmodified (numpy containers compared by dtype and value). (archive) a current archive built through the public API "
     "(EKO.create.load_cards.build, random operators with/without errors for 1-4 points, <= 8 grid nodes) is unpacked "
     "and re-packed by the harness in the 0.13.x ('v1') or 0.14.x ('v2') layout: metadata bases.xgrid (+ other bases "
     "keys) instead of xgrid, version 0.13.x/0.14.x with data_version 1, couplings.scale/num_flavs_ref/max_num_flavs "
@@ -44,7 +49,8 @@ ASSUMPTIONS = [
     "v1-0.13.tar / v1-0.14.tar are not available offline)",
     "em_running is only asserted (False) when the old card has no Qedref; with Qedref the rule of Legacy is accepted",
     "default scale-variation / inversion methods chosen by Legacy when the old cards do not name one are accepted",
-    "nf of a target given without nf = 3 + number of matching scales (m_q * k_qThr) <= mu (documented default flow)",
+    "nf of a scale given without nf = 3 + number of matching scales (m_q * k_qThr) <= mu (documented default flow: a "
+    "scale on a matching scale belongs to the upper patch, as np.digitize in matchings.nf_default and the Atlas decide)",
 ]
 LEVEL_TEXT = (
     "Generated-input exploration of the legacy converters with the drawn settings as oracle; samples the space of old "
@@ -74,24 +80,54 @@ def strategy(tier):
         if not walls[0] < walls[1] < walls[2]:  # the default flow needs naturally sorted matching scales
             s["ratios"] = [1.0, 1.0, 1.0]
             walls = list(s["masses"])
+        # FFNS spelling of the old cards (lha benchmarks): the last `ffns` matching ratios are infinite
+        ffns = draw(st.sampled_from([0, 0, 0, 1, 2]))
+        finite = walls[: 3 - ffns]
 
-        def off_walls(mu):
-            for w in walls:
+        def place(mu):
+            """A scale clearly off every matching scale, or (sometimes) bitwise on one: mu = m * k as the code forms it."""
+            if finite and draw(st.integers(0, 3)) == 0:
+                return draw(st.sampled_from(finite))
+            for w in finite:
                 if abs(mu - w) <= 1e-6 * w:
                     mu = w * 1.001
             return mu
 
-        s["init"][0] = off_walls(s["init"][0])
+        s["init"][0] = place(s["init"][0])
+        grid_key = draw(st.sampled_from(["mugrid", "Q2grid", "mu2grid"]))
+        container = draw(st.sampled_from(["list", "tuple", "f64-array", "f64-array", "int-list", "int-array"]))
+        values = []
         for p in s["mugrid"]:
-            p[0] = off_walls(p[0])
+            mu = place(p[0])
+            if container.startswith("int"):
+                v = max(1, int(round(mu if grid_key == "mugrid" else mu * mu)))
+                root = float(v) if grid_key == "mugrid" else v**0.5
+                while any(abs(root - w) <= 1e-6 * w for w in finite):  # integers: stay clear of the walls
+                    v += 1
+                    root = float(v) if grid_key == "mugrid" else v**0.5
+            else:
+                v = mu if grid_key == "mugrid" else mu * mu
+            values.append(v)
+        # further theories the very same raw operator card is paired with (benchmark runner pattern)
+        variants = []
+        for _ in range(draw(st.sampled_from([0, 0, 1, 2, 3]))):
+            variants.append(dict(
+                PTO=draw(st.integers(0, 3)), QED=draw(st.integers(0, 2)), ModEv=draw(st.sampled_from(MOD_EV)),
+                ModSV=draw(st.sampled_from([None, "exponentiated", "expanded"])), XIF=draw(st.sampled_from([0.5, 1.0, 2.0])),
+                Q0=place(draw(st.floats(1.0, 100.0))), nf0=draw(st.sampled_from([None, None, 3, 4, 5])),
+            ))
         return dict(
             kind="legacy",
             s=s,
             mod_ev=draw(st.sampled_from(MOD_EV)),
             alpha_keys=draw(st.sampled_from(["alphaqed", "alphaem", "both", "none"])),
             qedref=draw(st.sampled_from(["absent", "equal", "other"])),
-            nf0=draw(st.sampled_from(["given", "none"])),
-            grid_key=draw(st.sampled_from(["mugrid", "Q2grid", "mu2grid"])),
+            nf0=draw(st.sampled_from(["given", "none", "none"])),
+            grid_key=grid_key,
+            container=container,
+            grid_values=values,
+            ffns=ffns,
+            variants=variants,
             inv_where=draw(st.sampled_from(["operator", "operator", "theory", "absent"])),
             pto_matching=draw(st.booleans()),
             n3lo_key=draw(st.booleans()),
@@ -129,7 +165,7 @@ def old_cards(case):
     th = dict(
         PTO=s["order"][0] - 1, QED=s["order"][1], alphas=s["alphas"], Qref=s["ref"][0], nfref=s["ref"][1],
         mc=s["masses"][0], mb=s["masses"][1], mt=s["masses"][2],
-        kcThr=s["ratios"][0], kbThr=s["ratios"][1], ktThr=s["ratios"][2],
+        **{f"k{q}Thr": (float("inf") if i >= 3 - case.get("ffns", 0) else s["ratios"][i]) for i, q in enumerate("cbt")},
         HQ=s["scheme"], XIF=s["xif"], Q0=s["init"][0], nf0=s["init"][1] if case["nf0"] == "given" else None,
         ModEv=case["mod_ev"], ModSV=s["sv"],
     )
@@ -164,11 +200,14 @@ def old_cards(case):
         polarized=s["pol"],
         time_like=s["tl"],
     )
-    mus = [p[0] for p in s["mugrid"]]
-    if case["grid_key"] == "mugrid":
-        op["mugrid"] = mus
-    else:
-        op[case["grid_key"]] = [mu * mu for mu in mus]
+    values = case.get("grid_values")
+    if values is None:  # cases recorded before the container shapes existed
+        values = [p[0] if case["grid_key"] == "mugrid" else p[0] * p[0] for p in s["mugrid"]]
+    kind = case.get("container", "list")
+    op[case["grid_key"]] = {
+        "list": list, "int-list": list, "tuple": tuple,
+        "f64-array": lambda v: np.array(v, dtype=np.float64), "int-array": lambda v: np.array(v, dtype=np.int64),
+    }[kind](values)
     inv = s["inv"] or "exact"
     if case["inv_where"] == "operator":
         op["backward_inversion"] = inv
@@ -180,62 +219,72 @@ def old_cards(case):
 
 
 def _nf_of(mu, walls):
+    """Documented default flow: a scale on a matching scale belongs to the upper patch."""
     return 3 + sum(1 for w in walls if w * w <= mu * mu)
 
 
-def _check_legacy(case):
-    from eko.io.runcards import Legacy
+def _plain(x):
+    """Snapshot of a raw card entry: numpy containers -> (kind, dtype, values) so that mutation is visible."""
+    if isinstance(x, np.ndarray):
+        return ("ndarray", str(x.dtype), x.tolist())
+    if isinstance(x, dict):
+        return {k: _plain(v) for k, v in x.items()}
+    if isinstance(x, tuple):
+        return ("tuple", [_plain(v) for v in x])
+    if isinstance(x, list):
+        return [_plain(v) for v in x]
+    return x
 
-    s = case["s"]
-    res = CaseResult()
-    res.classes = [
-        "kind=legacy", f"PTO={s['order'][0] - 1}", f"QED={s['order'][1]}", f"HQ={s['scheme']}", f"ModEv={case['mod_ev']}",
-        f"ModSV={s['sv']}", f"alpha={case['alpha_keys']}", f"nf0={case['nf0']}", f"grid={case['grid_key']}",
-        f"inv_where={case['inv_where']}", f"points={len(s['mugrid'])}", f"pto_matching={case['pto_matching']}",
-    ]
-    res.nontrivial = s["order"][0] >= 2 or s["scheme"] == "MSBAR" or len(s["mugrid"]) >= 2
-    old_th, old_op = old_cards(case)
-    walls = [m * k for m, k in zip(s["masses"], s["ratios"])]
-    conv = Legacy(copy.deepcopy(old_th), copy.deepcopy(old_op))
-    # ---- theory
-    try:
-        th = conv.new_theory
-    except Exception as e:  # noqa: BLE001
-        res.fail(exc_bucket(f"{ID}/legacy-theory/call", e), f"Legacy.new_theory raised {e!r} for {old_th}")
-        th = None
-    if th is not None:
-        alphaem = {"alphaqed": s["alphaem"], "both": s["alphaem"], "alphaem": s["alphaem"], "none": 0.0}[case["alpha_keys"]]
-        exp = dict(
-            order=(s["order"][0], s["order"][1]),
-            alphas=s["alphas"], alphaem=alphaem, ref=(s["ref"][0], s["ref"][1]),
-            masses=[[m, (s["mass_refs"][i] if s["scheme"] == "MSBAR" else float("nan"))] for i, m in enumerate(s["masses"])],
-            scheme=s["scheme"].lower(), ratios=list(s["ratios"]), xif=s["xif"],
-            n3lo=tuple(s["n3lo"]) if case["n3lo_key"] else (0,) * 7,
-            matching_order=(max(s["order"][0] - 2, 0), 0) if case["pto_matching"] else (s["order"][0] - 1, 0),
-            use_fhmruvv=(s["use_fhmruvv"] is True) if case["fhmruvv_key"] else True,
-        )
-        got = dict(
-            order=tuple(th.order), alphas=th.couplings.alphas, alphaem=th.couplings.alphaem, ref=tuple(th.couplings.ref),
-            masses=[list(m) for m in th.heavy.masses], scheme=th.heavy.masses_scheme.value, ratios=list(th.heavy.matching_ratios),
-            xif=th.xif, n3lo=tuple(th.n3lo_ad_variation), matching_order=tuple(th.matching_order), use_fhmruvv=th.use_fhmruvv,
-        )
-        if case["qedref"] == "absent":
-            exp["em_running"], got["em_running"] = False, th.couplings.em_running
-        _compare(res, "legacy-theory", exp, got)
-    # ---- operator
-    try:
-        op = conv.new_operator
-    except Exception as e:  # noqa: BLE001
-        res.fail(exc_bucket(f"{ID}/legacy-operator/call", e), f"Legacy.new_operator raised {e!r} for {old_op} / {old_th}")
-        return res
+
+def _expect_theory(t):
+    """Settings an old theory dictionary denotes (meaning of the legacy keys)."""
+    alphaem = t["alphaqed"] if t.get("alphaqed") is not None else (t["alphaem"] if t.get("alphaem") is not None else 0.0)
+    msbar = t["HQ"] == "MSBAR"
     exp = dict(
-        init=(s["init"][0], s["init"][1] if case["nf0"] == "given" else _nf_of(s["init"][0], walls)),
-        nfs=[_nf_of(p[0], walls) for p in s["mugrid"]],
-        method=ALIAS.get(case["mod_ev"], case["mod_ev"]), sv=s["sv"],
-        max_order=(s["max_order"][0], s["order"][1]), iters=s["iters"], deg=s["deg"], is_log=s["is_log"],
-        cores=1 if s["cores"] == sc.ABSENT else s["cores"], pol=s["pol"], tl=s["tl"],
-        skip_singlet=s["skip_singlet"], skip_non_singlet=s["skip_non_singlet"], xgrid=sorted(s["xgrid"]),
+        order=(t["PTO"] + 1, t["QED"]), alphas=t["alphas"], alphaem=alphaem, ref=(t["Qref"], t["nfref"]),
+        masses=[[t["m" + q], (t["Qm" + q] if msbar else float("nan"))] for q in "cbt"],
+        scheme=t["HQ"].lower(), ratios=[t[f"k{q}Thr"] for q in "cbt"], xif=t["XIF"],
+        n3lo=tuple(t["n3lo_ad_variation"]) if "n3lo_ad_variation" in t else (0,) * 7,
+        matching_order=tuple(t["PTO_matching"]) if "PTO_matching" in t else (t["PTO"], 0),
+        use_fhmruvv=t.get("use_fhmruvv", True),
     )
+    if "Qedref" not in t:
+        exp["em_running"] = False
+    return exp
+
+
+def _expect_operator(t, o, grid_key):
+    walls = [t["m" + q] * t[f"k{q}Thr"] for q in "cbt"]
+    vals = [float(v) for v in (o[grid_key][2] if isinstance(o[grid_key], tuple) and o[grid_key][0] == "ndarray" else (
+        o[grid_key][1] if isinstance(o[grid_key], tuple) else o[grid_key]))]
+    mus = vals if grid_key == "mugrid" else [v**0.5 for v in vals]
+    exp = dict(
+        init=(t["Q0"], t["nf0"] if t["nf0"] is not None else _nf_of(t["Q0"], walls)),
+        nfs=[_nf_of(mu, walls) for mu in mus],
+        method=ALIAS.get(t["ModEv"], t["ModEv"]), sv=t["ModSV"],
+        max_order=(o["ev_op_max_order"], t["QED"]), iters=o["ev_op_iterations"], deg=o["interpolation_polynomial_degree"],
+        is_log=o["interpolation_is_log"], cores=o["n_integration_cores"], pol=o["polarized"], tl=o["time_like"],
+        skip_singlet=o["debug_skip_singlet"], skip_non_singlet=o["debug_skip_non_singlet"],
+        xgrid=sorted(o["interpolation_xgrid"]),
+    )
+    inv_where = "operator" if "backward_inversion" in o else ("theory" if "backward_inversion" in t else "absent")
+    if inv_where != "absent":
+        exp["inversion"] = o.get("backward_inversion", t.get("backward_inversion"))
+    return exp, mus, inv_where
+
+
+def _got_theory(th, with_em):
+    got = dict(
+        order=tuple(th.order), alphas=th.couplings.alphas, alphaem=th.couplings.alphaem, ref=tuple(th.couplings.ref),
+        masses=[list(m) for m in th.heavy.masses], scheme=th.heavy.masses_scheme.value, ratios=list(th.heavy.matching_ratios),
+        xif=th.xif, n3lo=tuple(th.n3lo_ad_variation), matching_order=tuple(th.matching_order), use_fhmruvv=th.use_fhmruvv,
+    )
+    if with_em:
+        got["em_running"] = th.couplings.em_running
+    return got
+
+
+def _got_operator(op, with_inv):
     cfg = op.configs
     got = dict(
         init=tuple(op.init), nfs=[p[1] for p in op.mugrid], method=cfg.evolution_method.value,
@@ -244,16 +293,100 @@ def _check_legacy(case):
         cores=cfg.n_integration_cores, pol=cfg.polarized, tl=cfg.time_like, skip_singlet=op.debug.skip_singlet,
         skip_non_singlet=op.debug.skip_non_singlet, xgrid=op.xgrid.raw.tolist(),
     )
-    if case["inv_where"] != "absent":
-        exp["inversion"] = s["inv"] or "exact"
+    if with_inv:
         got["inversion"] = None if cfg.inversion_method is None else cfg.inversion_method.value
-    _compare(res, f"legacy-operator", exp, got, sub={"inversion": f"given-in={case['inv_where']}"})
-    mus = [p[0] for p in op.mugrid]
-    want = [p[0] for p in s["mugrid"]]
-    tol = 0.0 if case["grid_key"] == "mugrid" else 4e-16
-    if len(mus) != len(want) or any(abs(a - b) > tol * abs(b) for a, b in zip(mus, want)):
-        res.fail(f"{ID}/legacy-operator/scales/{case['grid_key']}", f"target scales {mus} != drawn {want} (given as {case['grid_key']})")
+    return got
+
+
+def _check_legacy(case):
+    from eko.io.runcards import Legacy
+
+    s = case["s"]
+    res = CaseResult()
+    old_th, old_op = old_cards(case)
+    theories = [old_th] + [dict(old_th, **v) for v in case.get("variants", [])]
+    snap_op = _plain(copy.deepcopy(old_op))  # the request; expectations always come from here
+    last_op = snap_op
+    on_wall = False
+    res.nontrivial = s["order"][0] >= 2 or s["scheme"] == "MSBAR" or len(s["mugrid"]) >= 2
+    for i, th_raw in enumerate(theories):
+        tag = "" if i == 0 else f"upgrade #{i + 1} of the same raw operator card: "
+        snap_th = copy.deepcopy(th_raw)
+        walls = [snap_th["m" + q] * snap_th[f"k{q}Thr"] for q in "cbt"]
+        conv = Legacy(th_raw, old_op)  # the caller's objects, as the benchmark runner passes them
+        # ---- theory
+        try:
+            th = conv.new_theory
+        except Exception as e:  # noqa: BLE001
+            res.fail(exc_bucket(f"{ID}/legacy-theory/call", e), f"{tag}Legacy.new_theory raised {e!r} for {snap_th}")
+            th = None
+        if th is not None:
+            exp = _expect_theory(snap_th)
+            _compare(res, "legacy-theory", exp, _got_theory(th, "em_running" in exp), tag=tag)
+        # ---- operator
+        try:
+            op = conv.new_operator
+        except Exception as e:  # noqa: BLE001
+            res.fail(exc_bucket(f"{ID}/legacy-operator/call", e), f"{tag}Legacy.new_operator raised {e!r} for {snap_op} / {snap_th}")
+            break
+        exp, want, inv_where = _expect_operator(snap_th, snap_op, case["grid_key"])
+        on_wall = on_wall or any(snap_th["Q0"] == w for w in walls) or any(mu == w for mu in want for w in walls)
+        sub = {"inversion": f"given-in={inv_where}"}
+        if snap_th["nf0"] is None and any(snap_th["Q0"] == w for w in walls):
+            sub["init"] = "Q0-on-matching-scale"
+        _compare(res, "legacy-operator", exp, _got_operator(op, "inversion" in exp), sub=sub, tag=tag)
+        mus = [p[0] for p in op.mugrid]
+        tol = 0.0 if case["grid_key"] == "mugrid" else 4e-16
+        if len(mus) != len(want) or any(abs(a - b) > tol * abs(b) for a, b in zip(mus, want)):
+            res.fail(
+                f"{ID}/legacy-operator/scales/{case['grid_key']}" + ("" if i == 0 else "/repeated-upgrade"),
+                f"{tag}target scales {mus} != requested {want} ({case['grid_key']} given as {case.get('container', 'list')})",
+            )
+        # ---- the same upgrade from private copies of the request must agree field by field
+        if i > 0:
+            try:
+                fresh = Legacy(copy.deepcopy(snap_th), old_cards(case)[1]).new_operator
+            except Exception as e:  # noqa: BLE001
+                res.fail(exc_bucket(f"{ID}/legacy-operator/call", e), f"{tag}fresh copy: Legacy.new_operator raised {e!r}")
+                break
+            a, b = _got_operator(fresh, True), _got_operator(op, True)
+            a["scales"], b["scales"] = [float(p[0]) for p in fresh.mugrid], [float(p[0]) for p in op.mugrid]
+            for k in a:
+                if not _same(a[k], b[k]):
+                    res.fail(f"{ID}/legacy-operator/repeated-upgrade-differs/{k}",
+                             f"{tag}{k} = {b[k]!r}, but upgrading a fresh copy of the same request gives {a[k]!r}")
+        # ---- the caller's raw cards are inputs, not scratch space
+        if _plain(th_raw) != _plain(snap_th) and not _nan_equal(_plain(th_raw), _plain(snap_th)):
+            res.fail(f"{ID}/legacy/input-mutated/theory", f"{tag}the raw theory card was modified by the upgrade")
+        now = _plain(old_op)
+        if not _nan_equal(now, last_op):
+            keys = [k for k in last_op if not _nan_equal(now.get(k), last_op[k])]
+            res.fail(f"{ID}/legacy/input-mutated/operator/{'grid' if case['grid_key'] in keys else 'other'}",
+                     f"{tag}the raw operator card was modified by the upgrade: keys {keys}: {[last_op[k] for k in keys]} -> "
+                     f"{[now.get(k) for k in keys]}")
+            last_op = now  # report each modification once; later upgrades are still judged against the original request
+            if len(res.violations) > 12:
+                break
+    res.classes = [
+        "kind=legacy", f"PTO={s['order'][0] - 1}", f"QED={s['order'][1]}", f"HQ={s['scheme']}", f"ModEv={case['mod_ev']}",
+        f"ModSV={s['sv']}", f"alpha={case['alpha_keys']}", f"nf0={case['nf0']}", f"grid={case['grid_key']}",
+        f"inv_where={case['inv_where']}", f"points={len(s['mugrid'])}", f"pto_matching={case['pto_matching']}",
+        f"container={case.get('container', 'list')}", f"upgrades={len(theories)}", f"ffns={case.get('ffns', 0)}",
+        f"on_wall={on_wall}",
+    ]
     return res
+
+
+def _nan_equal(a, b):
+    if isinstance(a, float) and isinstance(b, float):
+        return a == b or (math.isnan(a) and math.isnan(b))
+    if type(a) is not type(b):
+        return False
+    if isinstance(a, dict):
+        return a.keys() == b.keys() and all(_nan_equal(a[k], b[k]) for k in a)
+    if isinstance(a, (list, tuple)):
+        return len(a) == len(b) and all(_nan_equal(x, y) for x, y in zip(a, b))
+    return a == b
 
 
 def _same(a, b):
@@ -266,11 +399,11 @@ def _same(a, b):
     return a == b
 
 
-def _compare(res, what, exp, got, sub=None):
+def _compare(res, what, exp, got, sub=None, tag=""):
     for k in exp:
         if not _same(exp[k], got[k]):
             extra = f"/{sub[k]}" if sub and k in sub else ""
-            res.fail(f"{ID}/{what}/{k}{extra}", f"{what}: {k} = {got[k]!r}, the old input says {exp[k]!r}")
+            res.fail(f"{ID}/{what}/{k}{extra}", f"{tag}{what}: {k} = {got[k]!r}, the old input says {exp[k]!r}")
 
 
 # ----------------------------------------------------------------------------- archives
